@@ -32,7 +32,7 @@ fn meta() -> Meta {
     Meta {
         id: "C19",
         level: "fault_enumeration",
-        rule: "for every configuration (naming x cleanup x write mode x 0/1 earlier run) the trace of file-system points of the history W W W5 W W R W F Reopen W5 W W is recorded fault-free; then every (site, occurrence) x burst in 1..3 is failed plus every pair of two single faults at different sites (quick: for the direct-mode configurations without earlier run; thorough: all); distinct_nontrivial = distinct (configuration, site, occurrence, burst) whose fault hits a rotation, cleanup, compression or initialisation step (not a plain write); plus 12 background-cleanup configurations under the scheduler's canonical schedule, real ENOSPC on the compression target (symlink to /dev/full planted at gz_create), a duplicate stream that is a full device for three records, and the current file on a full device (every failure reported, the empty file is not closed by the size criterion); the log directory removed for three records and re-created (no panic, reported, logging resumes); a rename that really fails because the target name is a directory; a start whose rename fails for real (name too long); buffered / asynchronous mode with the current file on a full device (rotation, shutdown, reopen_output, reset_flw; recovery after the device problem is over); the size criterion holds except for operations whose rotation attempt hit a fault; the failing-duplicate-stream scenario has a second writer (log_to_file_and_writer) whose file must hold every record; no file descriptor left (soft RLIMIT_NOFILE = 0: every open and every directory listing really fails with EMFILE, rename / remove work) for three rotating records between three before and three after, naming x {direct, buffered} x clock step {0, 1 s} x cleanup {none, KeepLogFiles}: no panic, nothing logged before is destroyed, losses reported, the records after are written; a fourth burst length 'until the faults are cleared'; nested records (a message that logs while it is formatted) on a full device: both failures of a call reported; create_symlink with its path taken by a non-empty directory (12 cases): every record written, one file per record, the problem reported",
+        rule: "for every configuration (naming x cleanup x write mode x 0/1 earlier run) the trace of file-system points of the history W W W5 W W R W F Reopen W5 W W is recorded fault-free; then every (site, occurrence) x burst in 1..3 is failed plus every pair of two single faults at different sites (quick: for the direct-mode configurations without earlier run; thorough: all); distinct_nontrivial = distinct (configuration, site, occurrence, burst) whose fault hits a rotation, cleanup, compression or initialisation step (not a plain write); plus 12 background-cleanup configurations under the scheduler's canonical schedule, real ENOSPC on the compression target (symlink to /dev/full planted at gz_create), a duplicate stream that is a full device for three records, and the current file on a full device (every failure reported, the empty file is not closed by the size criterion); the log directory removed for three records and re-created (no panic, reported, logging resumes); a rename that really fails because the target name is a directory; a start whose rename fails for real (name too long); buffered / asynchronous mode with the current file on a full device (rotation, shutdown, reopen_output, reset_flw; recovery after the device problem is over); the size criterion holds except for operations whose rotation attempt hit a fault; the failing-duplicate-stream scenario has a second writer (log_to_file_and_writer) whose file must hold every record; no file descriptor left (soft RLIMIT_NOFILE = 0: every open and every directory listing really fails with EMFILE, rename / remove work) for three rotating records between three before and three after, naming x {direct, buffered} x clock step {0, 1 s} x cleanup {none, KeepLogFiles}: no panic, nothing logged before is destroyed, losses reported, the records after are written; the same with the logger stopped and a new one started (append on / off) while no descriptor is available; a fourth burst length 'until the faults are cleared'; nested records (a message that logs while it is formatted) on a full device: both failures of a call reported; create_symlink with its path taken by a non-empty directory (12 cases): every record written, one file per record, the problem reported",
         assumptions: vec![
             "a failing file-system call has no effect and returns an io::Error of kind PermissionDenied (never NotFound, which two rename sites treat as benign)".into(),
             "faults are injected through the guarded fs_point hook directly before the call (the sandbox runs as root, permission bits do not bite)".into(),
@@ -115,13 +115,17 @@ const RENAME_DIR_UNITS: usize = 6 + 2 * (NG.len() + 3) + 1;
 
 // ---------------------------------------------------------------- no file descriptor left
 
-fn fd_cases() -> Vec<(NamingK, ModeK, i64, CleanK)> {
+fn fd_cases() -> Vec<(NamingK, ModeK, i64, CleanK, Option<bool>)> {
     let mut v = Vec::new();
     for naming in NG {
         for mode in [ModeK::Direct, ModeK::BufDont(16)] {
             for step in [0, 1] {
                 for clean in [CleanK::Never, CleanK::Log(20)] {
-                    v.push((naming, mode, step, clean));
+                    v.push((naming, mode, step, clean, None));
+                }
+                // a restart (append on / off) while no descriptor is available
+                for append in [false, true] {
+                    v.push((naming, mode, step, CleanK::Never, Some(append)));
                 }
             }
         }
@@ -393,20 +397,131 @@ fn run_extra_unit(idx: usize, unit: usize, out: &mut Out) {
     }
 }
 
+
+/// As `run_fd_exhausted`, but the logger is stopped after the first three records and a new one
+/// is started (append on / off) *while no descriptor is available*: the start-up decisions (which
+/// number comes next, whether a name is taken) are made without being able to list the
+/// directory. Nothing logged by the first run may be destroyed.
+fn run_fd_exhausted_restart(naming: NamingK, mode: ModeK, step: i64, append: bool) -> Result<usize, Fail> {
+    use crate::capture::FdCapture;
+    let env = Env::new("c19g");
+    env.enter();
+    let mut cfg = Cfg::rot(CritK::Size(LIMIT), naming, CleanK::Never);
+    cfg.mode = mode;
+    let cap_path = env.root.path().join("stderr.txt");
+    let cap = FdCapture::start(2, cap_path.clone()).ok_or(Fail {
+        clause: "machinery",
+        detail: "cannot capture stderr".into(),
+    })?;
+    let mut lines: Vec<Vec<u8>> = Vec::new();
+    let w = |logger: &dyn log::Log, n: usize, lines: &mut Vec<Vec<u8>>| {
+        for _ in 0..n {
+            env.clock.advance_secs(step);
+            let msg = crate::lg::payload(0, lines.len(), 19);
+            let mut l = msg.clone().into_bytes();
+            l.push(b'\n');
+            lines.push(l);
+            crate::lg::log_info(logger, &msg);
+            env.observe();
+        }
+    };
+    let fail = |cap: FdCapture, clause: &'static str, detail: String| {
+        cap.restore();
+        Err(Fail { clause, detail })
+    };
+    let first = cfg.logger(&env.dir, &env.err).error_channel(flexi_logger::ErrorChannel::StdErr).build();
+    let (l1, h1) = match first {
+        Ok(x) => x,
+        Err(e) => return fail(cap, "run-error", format!("build: {e}")),
+    };
+    w(&*l1, 3, &mut lines);
+    h1.shutdown();
+    drop(l1);
+    drop(h1);
+    env.observe();
+    env.clock.advance_secs(step);
+    cfg.append = append;
+    let errs0 = crate::lg::read_errchan(&cap_path).len();
+    let mut second = None;
+    let mut during = 0usize;
+    let r = without_descriptors(|| {
+        if let Ok((l2, h2)) = cfg.logger(&env.dir, &env.err).error_channel(flexi_logger::ErrorChannel::StdErr).build() {
+            w(&*l2, 3, &mut lines);
+            during = 3;
+            second = Some((l2, h2));
+        }
+    });
+    env.observe();
+    let errs_during = crate::lg::read_errchan(&cap_path).len().saturating_sub(errs0);
+    if let Err(e) = r {
+        return fail(cap, "machinery", e);
+    }
+    let (l2, h2) = match second {
+        Some(x) => x,
+        None => match cfg.logger(&env.dir, &env.err).error_channel(flexi_logger::ErrorChannel::StdErr).build() {
+            Ok(x) => x,
+            Err(e) => return fail(cap, "run-error", format!("build after the descriptors are back: {e}")),
+        },
+    };
+    w(&*l2, 3, &mut lines);
+    h2.shutdown();
+    drop(l2);
+    drop(Cfg::norot().build_logger(&env.root.path().join("throwaway"), &env.err));
+    let stderr_text = String::from_utf8_lossy(&cap.finish()).to_string();
+    env.leave();
+    let mut all = Vec::new();
+    let names = family::list_names(&env.dir);
+    for n in &names {
+        all.extend(std::fs::read(env.dir.join(n)).unwrap_or_default());
+    }
+    let has = |l: &Vec<u8>| all.windows(l.len()).any(|x| x == l.as_slice());
+    for l in lines.iter().take(3) {
+        if !has(l) {
+            return Err(Fail {
+                clause: "earlier-record-destroyed",
+                detail: format!("record {:?} of the first run is in no file any more after a logger was started (append={append}) while the process had no file descriptor left; files {names:?}; stderr {stderr_text:?}", String::from_utf8_lossy(l)),
+            });
+        }
+    }
+    let missing_during = lines[3..3 + during].iter().filter(|l| !has(l)).count();
+    if missing_during > 0 && errs_during == 0 {
+        return Err(Fail {
+            clause: "not-reported",
+            detail: format!("{missing_during} of the three records logged while no file descriptor was available are in no file, and nothing was written to the error channel meanwhile; files {names:?}"),
+        });
+    }
+    for l in &lines[3 + during..] {
+        if !has(l) {
+            return Err(Fail {
+                clause: "no-recovery",
+                detail: format!("descriptors are available again, three more records were logged, but {:?} is in no file: {names:?}; stderr {stderr_text:?}", String::from_utf8_lossy(l)),
+            });
+        }
+    }
+    Ok(errs_during.min(9) * 10 + missing_during)
+}
+
 fn run_fd_unit(idx: usize, unit: usize, out: &mut Out) {
-    let (naming, mode, step, clean) = fd_cases()[idx];
+    let (naming, mode, step, clean, restart) = fd_cases()[idx];
     let case = json!({"unit": unit, "fd_exhausted": idx});
-    let cause = format!("no-file-descriptor/{}/{}/step{step}/{}", naming.short(), super::c08::mode_class(mode), if clean == CleanK::Never { "never" } else { "keeplog" });
+    let cause = format!("no-file-descriptor/{}/{}/step{step}/{}{}", naming.short(), super::c08::mode_class(mode), if clean == CleanK::Never { "never" } else { "keeplog" }, match restart {
+        None => "",
+        Some(false) => "/restart-no-append",
+        Some(true) => "/restart-append",
+    });
     let mut vs = Vec::new();
     for _ in 0..2 {
         out.evaluations += 1;
         out.transitions += 9;
-        match run_isolated(Duration::from_secs(30), move || run_fd_exhausted(naming, mode, step, clean)) {
+        match run_isolated(Duration::from_secs(30), move || match restart {
+            None => run_fd_exhausted(naming, mode, step, clean),
+            Some(a) => run_fd_exhausted_restart(naming, mode, step, a),
+        }) {
             Ran::Done(Ok(n)) => {
                 out.outcome(format!("no descriptors: error lines={} lost meanwhile={}", n / 10, n % 10));
                 break;
             }
-            Ran::Done(Err(f)) => vs.push(Violation::new(f.clause, cause.clone(), format!("naming {naming:?}, {mode:?}, cleanup {clean:?}, size limit {LIMIT}, clock step {step} s; history W W W [RLIMIT_NOFILE=0] W W W [restored] W W W\n  {}", f.detail), case.clone())),
+            Ran::Done(Err(f)) => vs.push(Violation::new(f.clause, cause.clone(), format!("naming {naming:?}, {mode:?}, cleanup {clean:?}, size limit {LIMIT}, clock step {step} s; history W W W {}[RLIMIT_NOFILE=0] W W W [restored] W W W\n  {}", if restart.is_some() { "[stop] [start under] " } else { "" }, f.detail), case.clone())),
             Ran::Panicked(m) => vs.push(Violation::new("panic", cause.clone(), format!("naming {naming:?}, {mode:?}, cleanup {clean:?}; history W W W [RLIMIT_NOFILE=0] W W W [restored] W W W\n  a log call panicked: {m}"), case.clone())),
             Ran::Hung => vs.push(Violation::new("hang", cause.clone(), String::new(), case.clone())),
         }
